@@ -59,5 +59,9 @@ def main(ctx):
            "samples": [{k: blocks[-1].get(k) for k in ("h", "flags", "vload", "registry")}],
            "rule": "after every block: incremental ValidatorsCache vs fresh Load() on the same identity state through all public getters "
                    "and committees for a grid of seeds/rounds/steps/limits; stored registry vs identity ledger"}
+    # growth module: offline proposals / votes / commits / penalties and online-status switching (Offline.tla) on real multi-node worlds
+    cov["offline_detection"] = vlib.run_extra(ctx, "extra_offline", quick)
+    cov["states"] += cov["offline_detection"].get("od_states", 0)
+    cov["transitions"] += cov["offline_detection"].get("od_transitions", 0)
     return vlib.finish(ctx, "model_checking", cov, assumptions=[
         "verdicts only from block-level histories on the real code; the abstract diff model is a design-level lead generator"])
